@@ -530,9 +530,11 @@ bool cmi_event_remove_waiter(const uint64_t key, const struct cmb_process *pp)
 
     /*
      * The awaited event may just have been executed or cancelled, with our
-     * wakeup event already scheduled. Then there is no waiter list to leave.
+     * wakeup event already scheduled. Then there is no waiter list to leave,
+     * but that wakeup call must not arrive later, in the middle of something else.
      */
     if (!cmi_hashheap_is_enqueued(event_queue, key)) {
+        (void)cmb_event_pattern_cancel(wakeup_event_event, pp, CMB_ANY_OBJECT);
         return false;
     }
 
